@@ -32,12 +32,12 @@ var (
 	EditTools      = []string{"a.com/x/cmd/t", "b.com/y/t2", "d.com/w/cmd/q"}
 	EditGodebugKey = []string{"k1", "k2", "k3"}
 	EditGodebugVal = []string{"0", "1", "2", ""} // the empty value is a value too (`godebug k=`)
-	EditUseDirs    = []string{"./a", "./b", "../c", "./d e", "./f", "./g//h", "./m//"}
+	EditUseDirs    = []string{"./a", "./b", "../c", "./d e", "./f", "./g//h", "./m//", "./n\xffr", "./cafe\u0301"} // the last two: an undecodable byte next to the end, a combining mark at the end (both are written unquoted)
 	EditGoVersions = []string{"1.9", "1.20", "1.21", "1.21.0", "1.22.1", "1.100", "1.22rc1", "1.20rc2"}
 	EditToolchains = []string{"go1.21.0", "go1.22.1", "default"}
 	EditModules    = []string{"m.com/m", "n.com/n"}
 	// replacement targets: directories have no version
-	EditTargets = [][2]string{{"../x", ""}, {"../y", ""}, {"e.com/fork", "v1.0.0"}, {"e.com/fork", "v1.1.0"}, {"f.com/other", "v1.0.0"}, {"../z//w", ""}, {"./sp ace", ""}, {".", ""}, {"..", ""}, {"../q//", ""}}
+	EditTargets = [][2]string{{"../x", ""}, {"../y", ""}, {"e.com/fork", "v1.0.0"}, {"e.com/fork", "v1.1.0"}, {"f.com/other", "v1.0.0"}, {"../v\xff", ""}, {"../m\u00b2", ""}, {"../z//w", ""}, {"./sp ace", ""}, {".", ""}, {"..", ""}, {"../q//", ""}}
 )
 
 // EditLine describes one directive line of a generated file.
